@@ -13,14 +13,15 @@ def run(ctx):
     rng = random.Random(ctx.seed)
     probe = c18.Probe(ctx)
     base, fail = probe.run({}, ["--config.exclude-paths="])
-    if fail or len(base) != 34:
+    if fail or len(base) != 42:
         raise vlib.ToolError("the unrestricted run of the probe module does not show all plants: %s %s" % (fail, base))
     scs1, r1 = progcheck.tlc_scenarios(ctx, "Config", c18.cfg("excl_small"), "c08_small", coverage=True)
     scs2, r2 = progcheck.tlc_scenarios(ctx, "Config", c18.cfg("excl_pairs"), "c08_pairs")
     zero = [a for a, n in r1["cov"].items() if n == 0 and not a.endswith("Finished")]
     if zero:
         raise vlib.ToolError("vacuous actions: %s" % zero)
-    pick = (scs1 + scs2) if thorough else (progcheck.sample(scs1, 140, ctx.seed) + progcheck.sample(scs2, 160, ctx.seed))
+    scs3, r3 = progcheck.tlc_scenarios(ctx, "Config", c18.cfg("excl_cat"), "c08_cat")
+    pick = (scs1 + scs2 + scs3) if thorough else (progcheck.sample(scs1, 120, ctx.seed) + progcheck.sample(scs2, 130, ctx.seed) + scs3)
     n, nt, samples = c18.replay_scenarios(ctx, probe, pick, rng)
     nv = 0
     if not ctx.violations:
@@ -30,7 +31,7 @@ def run(ctx):
         "samples": samples,
         "evaluations": n + nv,
         "distinct_nontrivial": nt,
-        "rule": "terminal states of Config.tla in the exclusion modes: every subset S of the reduced universe {ALL, IMM, CTOR, IMM01, IMM02, CTOR01, "
+        "rule": "terminal states of Config.tla in the exclusion modes: every subset of the codes of each category, every subset S of the reduced universe {ALL, IMM, CTOR, IMM01, IMM02, CTOR01, "
                 "CTOR03, FOO} (by flag and by environment) and every singleton / pair of the full universe {ALL, 5 categories, 16 codes, 4 junk "
                 "tokens} (flag, env, flag over env=ALL); TLC checks Run(S) = {d in Run({}) : no token of S matches d} in the model, the binary is "
                 "run on the probe module (all 16 codes) with S spelled with random case / blanks / empty items and the visible codes must equal "
